@@ -2198,7 +2198,8 @@ class GattServer(GattLayer):
                     # Done
                     return
 
-            # Done !
+            # Done, prepared writes have been applied: empty the queues
+            self.__write_queues = {}
             self.att.execute_write_response()
         else:
             # Unknown flag !
